@@ -48,7 +48,7 @@ Definition copies (it : ritem) (x : pout) : Prop :=
   | PResult r => pr_status r = ri_status it /\ pr_reason r = ri_reason it /\ pr_msg r = ri_msg it
   | PDict st rs m _ => st = ri_status it /\ rs = ri_reason it /\ m = ri_msg it
   | PPayload _ => ri_status it = SUCCESS
-  | PFail st rs m => st = ri_status it /\ st <> SUCCESS /\ ri_reason it = Some rs /\ ri_msg it = Some m
+  | PFail st rs m => st = ri_status it /\ st <> SUCCESS /\ ri_reason it = Some rs /\ ri_msg it = m
   | PExc => True
   end.
 
@@ -68,8 +68,7 @@ Proof.
   destruct (c =? 24).
   { destruct (mk_result_shape CQuery it query_fields) as [E | [r E]]; rewrite E; simpl; auto.
     apply mk_result_inv in E. tauto. }
-  destruct (c =? 30); [|simpl; auto].
-  destruct (ri_payload it); [apply mk_result_copies | simpl; auto].
+  destruct (c =? 30); [apply mk_result_copies|simpl; auto].
 Qed.
 
 Lemma proxy_process_copies it rest : copies it (proxy_process (it :: rest)).
@@ -85,7 +84,7 @@ Proof.
   unfold proxy_dict. destruct (ri_payload it) as [p|].
   - destruct (copy_fields p (dict_fields o)); simpl; auto.
     destruct o; simpl; auto. destruct (check_norm a); simpl; auto.
-  - destruct o; simpl; auto.
+  - simpl; auto.
 Qed.
 
 Lemma proxy_payload_copies o it rest : copies it (proxy_payload o (it :: rest)).
@@ -95,7 +94,7 @@ Proof.
   - destruct (ri_op it) as [c|]; simpl; auto.
     destruct (c =? opcode o); simpl; auto.
     destruct (ri_payload it); simpl; auto. lia.
-  - destruct (ri_reason it) eqn:R, (ri_msg it) eqn:M; simpl; auto.
+  - destruct (ri_reason it) eqn:R; simpl; auto.
     repeat split; auto. unfold SUCCESS in *. lia.
 Qed.
 
@@ -116,7 +115,7 @@ Proof. destruct o; reflexivity. Qed.
 Lemma pie_of_result_return o r v : pie_of_result o r = Return v -> pr_status r = SUCCESS.
 Proof.
   unfold pie_of_result. destruct (pr_status r =? SUCCESS) eqn:E; [lia|].
-  destruct (pr_reason r), (pr_msg r); discriminate.
+  destruct (pr_reason r); discriminate.
 Qed.
 
 Lemma pie_of_result_raise o r c st rs m :
@@ -128,7 +127,7 @@ Proof.
     destruct o; repeat match goal with
                        | |- context [match ?x with _ => _ end] => destruct x
                        end; discriminate.
-  - destruct (pr_reason r), (pr_msg r); try discriminate.
+  - destruct (pr_reason r); try discriminate.
     intros H. injection H as <- <- <- <-. repeat split; auto. lia.
 Qed.
 
@@ -246,102 +245,33 @@ Qed.
 (* ------------------------------------------------------------------ failures *)
 Definition failure_class (o : op) : fcls := match style_of o with SPayload => FCore | _ => FPie end.
 
-(* where the message is read with `.value` (no None guard): result-object and generic-payload paths *)
-Definition message_read_unguarded (o : op) : bool :=
-  match style_of o with SDict => false | _ => true end.
-
-Theorem failure_carries_partial o it rs :
+(* every legal failure - message or not, operation echoed or not - is raised as an operation
+   failure carrying exactly the status, reason and message of the response *)
+Theorem failure_carries o it rs :
   is_pie o = true -> legal_failure o it rs ->
-  o <> OCheck ->
-  (message_read_unguarded o = true -> ri_msg it <> None) ->
   interpret o (Decoded [it]) = Raise (failure_class o) (ri_status it) rs (ri_msg it).
 Proof.
-  intros Hp (Hs & Hr & Hpl & Hop) Hc Hm.
+  intros Hp (Hs & Hr & Hpl & Hop).
   destruct it as [iop ist irs imsg ipl]. simpl in *. subst.
   assert (Hst : (ist =? SUCCESS) = false) by lia.
-  destruct o; try discriminate Hp; try congruence;
+  destruct o; try discriminate Hp;
     unfold interpret, proxy_call, proxy_direct, proxy_process, proxy_dict, proxy_payload, mk_result, fields_of,
-      process_item, pie_of_result, pie_of_dict, failure_class, message_read_unguarded in *;
-    simpl in *; try rewrite Hst; simpl;
-    try (destruct imsg as [m|]; [reflexivity | exfalso; apply Hm; reflexivity]);
-    try reflexivity;
-    destruct Hop as [-> | ->]; simpl; try rewrite Hst; simpl;
-    try (destruct imsg as [m|]; [reflexivity | exfalso; apply Hm; reflexivity]).
-Qed.
-
-(* the full-strength clause of the property (no side conditions): refuted below *)
-Definition failure_carries_statement : Prop :=
-  forall o it rs, is_pie o = true -> legal_failure o it rs ->
-    interpret o (Decoded [it]) = Raise (failure_class o) (ri_status it) rs (ri_msg it).
-
-Definition destroy_failure_without_message : ritem :=
-  {| ri_op := Some 20; ri_status := 1; ri_reason := Some 1; ri_msg := None; ri_payload := None |}.
-
-Theorem failure_carries_refuted :
-  exists o it rs, is_pie o = true /\ legal_failure o it rs /\ interpret o (Decoded [it]) = RaiseOther.
-Proof.
-  exists ODestroy, destroy_failure_without_message, 1.
-  split; [reflexivity|]. split; [|vm_compute; reflexivity].
-  unfold legal_failure, destroy_failure_without_message, SUCCESS. simpl. repeat split; auto. lia.
-Qed.
-
-(* exactly which answers are lost: on the unguarded paths EVERY failure without a message *)
-Theorem missing_message_always_crashes o it rs :
-  is_pie o = true -> legal_failure o it rs -> message_read_unguarded o = true -> ri_msg it = None ->
-  interpret o (Decoded [it]) = RaiseOther.
-Proof.
-  intros Hp (Hs & Hr & Hpl & Hop) Hu Hm.
-  destruct it as [iop ist irs imsg ipl]. simpl in *. subst.
-  assert (Hst : (ist =? SUCCESS) = false) by lia.
-  destruct o; try discriminate Hp; try discriminate Hu;
-    unfold interpret, proxy_call, proxy_direct, proxy_process, proxy_dict, proxy_payload, mk_result, fields_of,
-      process_item, pie_of_result, pie_of_dict in *;
+      process_item, pie_of_result, pie_of_dict, failure_class in *;
     simpl in *; try rewrite Hst; simpl; try reflexivity;
-    destruct Hop as [-> | ->]; simpl; try rewrite Hst; reflexivity.
-Qed.
-
-(* Check: EVERY failure is lost, message or not *)
-Theorem check_failure_refuted it rs :
-  legal_failure OCheck it rs -> interpret OCheck (Decoded [it]) = RaiseOther.
-Proof.
-  intros (Hs & Hr & Hpl & Hop). destruct it as [iop ist irs imsg ipl]. simpl in *. subst. reflexivity.
+    destruct Hop as [-> | ->]; simpl; try rewrite Hst; simpl; reflexivity.
 Qed.
 
 (* ------------------------------------------------------------------ KMIPProxy result objects *)
-Definition discover_failure : ritem :=
-  {| ri_op := Some 30; ri_status := 1; ri_reason := Some 5; ri_msg := Some [120]; ri_payload := None |}.
-
-Theorem proxy_discover_failure_refuted :
-  legal_failure ODiscoverVersions discover_failure 5 /\
-  proxy_call ODiscoverVersions (Decoded [discover_failure]) = PExc.
-Proof.
-  split; [|vm_compute; reflexivity].
-  unfold legal_failure, discover_failure, SUCCESS. simpl. repeat split; auto. lia.
-Qed.
-
-Theorem proxy_check_failure_refuted it rs :
-  legal_failure OCheck it rs -> proxy_call OCheck (Decoded [it]) = PExc.
-Proof.
-  intros (Hs & Hr & Hpl & Hop). destruct it as [iop ist irs imsg ipl]. simpl in *. subst. reflexivity.
-Qed.
-
-(* apart from those two, KMIPProxy hands every legal failure back (result object / dictionary
-   with the three fields, or OperationFailure on the generic path when the message is present) *)
 Theorem proxy_failure_reported o it rs :
-  legal_failure o it rs -> o <> OCheck ->
-  (o = ODiscoverVersions -> ri_op it = None) ->
-  (style_of o = SPayload -> ri_msg it <> None) ->
-  proxy_call o (Decoded [it]) <> PExc.
+  legal_failure o it rs -> proxy_call o (Decoded [it]) <> PExc.
 Proof.
-  intros (Hs & Hr & Hpl & Hop) Hc Hd Hm.
+  intros (Hs & Hr & Hpl & Hop).
   destruct it as [iop ist irs imsg ipl]. simpl in *. subst.
   assert (Hst : (ist =? SUCCESS) = false) by lia.
-  destruct o; try congruence;
+  destruct o;
     unfold proxy_call, proxy_direct, proxy_process, proxy_dict, proxy_payload, mk_result, fields_of, process_item;
     simpl in *; try rewrite Hst; simpl; try discriminate;
-    try (destruct imsg; [discriminate | exfalso; apply Hm; auto]);
-    destruct Hop as [-> | ->]; simpl; try discriminate.
-  specialize (Hd eq_refl). discriminate.
+    destruct Hop as [-> | ->]; simpl; discriminate.
 Qed.
 
 (* copy_fields reads each named payload attribute *)
